@@ -13,13 +13,15 @@ This wrapper makes the predecessor a dimension of the space:
                and differ in what it would leave out; they need not belong to the sub-check's own space)
     space      all K*K ordered pairs (first, second), the diagonal included (the same case twice)
     execution  run(first); run(second) in the same process, nothing reset in between
-    oracle     (a) the wrapped sub-check's own oracle on the second case (reference model / differential, unchanged);
+    oracle     (a) the wrapped sub-check's own oracle on the second case (reference model / differential, unchanged):
+                   it must say exactly what it says for that case on its own (nothing, for most cases);
                (b) the digest of the observed behaviour of the second case equals the digest it had when it ran on
                    its own while the alphabet was selected (only for cases whose digest was stable over two such runs)
                Between the two runs the objects the first case built are scribbled over in place (mc/scribble.py).
 
-Only cases whose own run is clean are selected, so a discrepancy here is a dependence on the predecessor (what fails
-on its own is the wrapped sub-check's business, known findings included)."""
+A case need not be clean on its own (it may be a known finding): what its own oracle says after a predecessor is compared
+with what it says on its own - computed in a child forked from the building process - so a discrepancy here is always a
+dependence on the predecessor."""
 import copy
 import os
 import pickle
@@ -89,7 +91,7 @@ def solo(inner, case):
             os.close(r)
             t0 = time.process_time()
             o1 = run_case(inner, case)
-            res = (not o1.disc, h64(repr(o1.outcome)), time.process_time() - t0)
+            res = (signature(o1), h64(repr(o1.outcome)), time.process_time() - t0)
             with os.fdopen(w, "wb") as f:
                 f.write(pickle.dumps(res))
         except BaseException:  # noqa
@@ -103,7 +105,12 @@ def solo(inner, case):
     try:
         return pickle.loads(data)
     except Exception:  # noqa
-        return (False, None, 0.0)
+        return (None, None, 0.0)
+
+
+def signature(o):
+    """what a case's own oracle says, as one number: 0 = nothing, else a hash of its (sorted) discrepancy messages"""
+    return h64(sorted(d["message"] for d in o.disc)) if o.disc else 0
 
 
 class CrossTalk(SubCheck):
@@ -114,36 +121,41 @@ class CrossTalk(SubCheck):
         self.inner = inner
         self.name = "after:" + inner.name
         want = 56 if tier == "thorough" else 24
+        # a sub-check whose cases are expensive states its own alphabet size (quick, thorough): the size must not depend
+        # on how fast this machine happens to be today
+        if getattr(inner, "crosstalk_k", None):
+            want = inner.crosstalk_k[1 if tier == "thorough" else 0]
         if getattr(inner, "case_cpu_limit", None):
             self.case_cpu_limit = 2 * inner.case_cpu_limit
         extra = list(inner.crosstalk_cases()) if hasattr(inner, "crosstalk_cases") else []
         cand = [("x", c) for c in extra] + [(i, None) for i in select(inner, want, seed)]
         self.sel, self.solo, self.explicit = [], [], []
-        budget = 600.0 if tier == "thorough" else 48.0      # CPU seconds for all pairs of this wrapper
         spent = 0.0
         for i, c in cand:
             n = len(self.sel)
             if n >= want + len(extra):
                 break
-            if n >= 6 and spent / n * 2.0 * (n + 1) ** 2 > budget:
-                self.caps_hit = ["alphabet cut at %d cases (of %d wanted): %.2f s of CPU per case, %g s budget for all pairs"
-                                 % (n, want + len(extra), spent / n, budget)]
-                break
             c = inner.case(i) if c is None else c
-            clean, digest, secs = solo(inner, c)
-            if not clean:
-                continue        # not clean on its own: the wrapped sub-check reports it (or it is a known finding)
+            sig, digest, secs = solo(inner, c)
+            if sig is None:
+                continue        # could not be run on its own at all
             spent += secs
-            if solo(inner, copy.deepcopy(c))[1] != digest:
-                digest = None   # the digest is not a function of the case (two fresh processes disagree): not compared
+            sig2, digest2, _ = solo(inner, copy.deepcopy(c))
+            if sig2 != sig:
+                continue        # its own verdict is not a function of the case (two fresh processes disagree)
+            if digest2 != digest:
+                digest = None   # nor is its digest: not compared
+            digest = (sig, digest)
             self.sel.append(i if i != "x" else -1 - len(self.explicit))
             if i == "x":
                 self.explicit.append(c)
             self.solo.append(digest)
         n = len(self.sel)
+        if os.environ.get("VERIF_XT_DEBUG"):
+            print("XT %-24s K=%d  %.3f s/case  pairs cost %.0f CPU-s" % (inner.name, n, spent / max(n, 1), spent / max(n, 1) * 2 * n * n))
         self.bounds = dict(wrapped=inner.name, selected_cases=n, nominated_cases=len(self.explicit), ordered_pairs=n * n,
                            selection="nominated colliding cases, bases spread over the space, their one-field neighbours, "
-                                     "far-away cases; clean on their own")
+                                     "far-away cases")
 
     def size(self):
         return len(self.sel) ** 2
@@ -175,11 +187,15 @@ class CrossTalk(SubCheck):
         out.transitions = 1
         out.nontrivial.append((case["first_index"], case["second_index"]))
         out.outcome = repr(o.outcome)
-        for d in o.disc:
-            out.fail("after case %d of %s: %s" % (case["first_index"], inner.name, d["message"]), d["expected"], d["observed"],
-                     kind="after", inner_kind=d["tags"].get("kind"))
-        solo = self.solo[case["j"]] if case.get("j") is not None else None
-        if not o.disc and solo is not None and h64(repr(o.outcome)) != solo:
+        solo_sig, solo_digest = self.solo[case["j"]] if case.get("j") is not None else (0, None)
+        if signature(o) != solo_sig:
+            # (a case that is not clean on its own - a known finding, or something the wrapped sub-check reports itself -
+            # still has to say the SAME after any predecessor)
+            for d in (o.disc[:3] or [dict(message="no discrepancy any more", expected=None, observed=None, tags={})]):
+                out.fail("after case %d of %s: %s%s" % (case["first_index"], inner.name, d["message"],
+                                                        " (on its own the case says something else)" if solo_sig else ""),
+                         d["expected"], d["observed"], kind="after", inner_kind=d["tags"].get("kind"))
+        elif solo_digest is not None and h64(repr(o.outcome)) != solo_digest:
             out.fail("case %d of %s behaves differently after case %d than on its own" % (case["second_index"], inner.name, case["first_index"]),
                      None, repr(o.outcome)[:300], kind="after-digest")
         return out
